@@ -498,6 +498,7 @@ fn gen_file(rng: &mut Rng, profile: u64) -> FileS {
         2 => (12, 3, 20, 10),    // deep
         3 => (40, 30, 20, 2),    // the full dimensions, tiny attributes
         4 => (3, 2, 2, 300),     // attribute length crossing 255
+        6 => (8, 120, 12, 400),  // a large dump: RIB entries well beyond 64 KiB in total
         _ => (10, 8, 6, 16),
     };
     let np = match rng.below(5) { 0 => 1, 1 => maxp, _ => rng.usize(1, maxp) };
@@ -505,12 +506,12 @@ fn gen_file(rng: &mut Rng, profile: u64) -> FileS {
         let v6 = rng.bool(); let as4 = rng.bool();
         PeerS { id: rng.u32(), addr: gen_addr(rng, v6), asn: gen_asn(rng, as4), as4 }
     }).collect();
-    let nt = match rng.below(5) { 0 => 1, 1 => maxt, _ => rng.usize(1, maxt) };
+    let nt = if profile == 6 { rng.usize(60, maxt) } else { match rng.below(5) { 0 => 1, 1 => maxt, _ => rng.usize(1, maxt) } };
     let mut seq = if rng.chance(1, 8) { u32::MAX - 3 } else { rng.below(1000) as u32 };
     let tables: Vec<TableS> = (0..nt).map(|_| {
         let v6 = rng.chance(2, 5);
         let (plen, pbytes) = gen_prefix(rng, v6);
-        let ne = match rng.below(5) { 0 => 1, 1 => maxe, _ => rng.usize(1, maxe) };
+        let ne = if profile == 6 { rng.usize(maxe / 2, maxe) } else { match rng.below(5) { 0 => 1, 1 => maxe, _ => rng.usize(1, maxe) } };
         let entries = (0..ne).map(|_| EntryS {
             idx: match rng.below(6) { 0 => 0, 1 => (np - 1) as u16, _ => rng.below(np as u64) as u16 },
             orig: rng.u32(), attrs: gen_attrs(rng, maxa) }).collect();
@@ -740,6 +741,17 @@ impl Prop for C16 {
                 for t in f.tables.iter().take(3) { v.push(format!("single {} {}", b01(t.v6), hex(&ref_table(t)[12..]))); }
                 v.push(format!("peers {}", hex(&ref_file(&f))));
             }
+        }
+        // ---- large dumps (hundreds of KiB of RIB entries), and one table that is larger than 64 KiB by
+        //      itself followed by small ones
+        for i in 0..(if tier == Tier::Thorough { 24 } else { 3 }) {
+            let mut f = gen_file(rng, 6);
+            if i % 3 == 2 {
+                f.tables.truncate(6);
+                let np = f.peers.len();
+                f.tables[1].entries = (0..300).map(|_| EntryS { idx: rng.below(np as u64) as u16, orig: rng.u32(), attrs: rng.bytes(250) }).collect();
+            }
+            push_file_ops(&mut v, &f, 1);
         }
         // ---- BGP4MP files
         for i in 0..nrecs {
